@@ -13,6 +13,8 @@ use serde_json::json;
 /// `TraceLevel::Silent` (and the trace arguments under `Compact`), so a label that fails makes
 /// the builds differ.  Keys of such cases end with this suffix.
 pub const KNOWN_SUFFIX: &str = "failing-trace-label-decides";
+/// key of the known finding `split_body_lambda` as seen by C14 (see known_findings.jsonl)
+pub const AFTERWARDS_KEY: &str = "c14:optimiser-afterwards-moves-failing-argument-under-lambda";
 
 pub fn run(ctx: &Ctx) -> Report {
     let mut rep = Report::new(
@@ -106,9 +108,36 @@ pub fn run(ctx: &Ctx) -> Report {
                     v.iter().all(|c| *c == v[0])
                 });
                 let values: std::collections::BTreeSet<&String> = canon.iter().filter(|c| *c != "abort").collect();
+                // is it the optimiser?  the unoptimised programs of all 9 settings agree, an optimised one deviates
+                let pre_canon: Vec<String> = progs.iter().map(|c| c01::read_back(&comp::eval(&c.pre, &data), &f.ret, &p.module)).collect();
+                rep.evaluations += 9;
+                let pre_same = pre_canon.iter().all(|c| *c == pre_canon[0]);
+                if pre_same && (p.labels_total || !consistent) {
+                    let k = (0..9).find(|k| canon[*k] != pre_canon[*k]).unwrap_or(0);
+                    let why = crate::c02::attribute(&progs[k].raw_pre, &data, &comp::eval(&progs[k].pre, &data).canonical());
+                    if why.starts_with("clean_up_no_inlines+afterwards") && pre_canon[k] == "abort" {
+                        rep.count("known:afterwards-moves-argument-under-lambda");
+                        comp::fail_shared(
+                            &mut rep,
+                            AFTERWARDS_KEY,
+                            "under some settings the optimiser's last phase moves the evaluation of a failing argument under a lambda (unoptimised programs agree under all 9 settings)",
+                            json!({"source": p.src, "function": f.name, "arguments": argw}),
+                            json!({"outcomes": table, "deviating_setting": settings[k].0, "attribution": why}),
+                        );
+                    } else {
+                        rep.fail(
+                            &format!("{}:optimiser-differs-by-tracing", key),
+                            "the unoptimised programs agree under all 9 settings, an optimised one deviates",
+                            json!({"source": p.src, "function": f.name, "arguments": argw}),
+                            json!({"outcomes": table, "deviating_setting": settings[k].0, "attribution": why, "labels_total": p.labels_total}),
+                        );
+                    }
+                    continue;
+                }
                 if !p.labels_total && consistent && values.len() <= 1 {
                     rep.count("known:failing-label-decides");
-                    rep.fail(
+                    comp::fail_shared(
+                        &mut rep,
                         &format!("c14:{}", KNOWN_SUFFIX),
                         "a trace label / argument that fails aborts the builds that evaluate it and not the others (by design: the checker drops it)",
                         json!({"source": p.src, "function": f.name, "arguments": argw}),
